@@ -156,9 +156,13 @@ Print Assumptions html_template_text_clean.
    (the '<' belongs to the text); "<!--" body, "<![CDATA[" body, "<!doctype" after: one Comment / Text / Doctype token
    to the end; "<?" / "<!" / "</"+non-letter body: one bogus Comment; "</" name ws: one EndTag; "<" name attributes:
    StartTag and the Attribute tokens; a raw-text element (script with its double-escape rules) whose content has no
-   end tag (Script.raw_len = length): the tag tokens and ONE Text to the end.  In each case the end-of-input report follows.
-   NOT covered by this theorem (correspondence + Go oracle only): cuts inside an svg / math / xml element, inside a
-   quoted attribute value and inside the whitespace at the end of a tag; raw content that is empty (html_rawtext_end_exact
+   end tag (Script.raw_len = length): the tag tokens and ONE Text to the end; an svg / math / xml element without its end
+   tag whose bytes after the name are read by shiftXML's first loop up to the end of input (WfDoc.ICutForeign over the step
+   function Wf.xml_step: the cut may fall in character data, inside a tag, a quoted attribute value, a comment, a CDATA
+   section or a processing instruction; no NUL): ONE SVG / Math / XML token to the end, no error.  In each case the
+   end-of-input report follows.
+   NOT covered by this theorem (correspondence + Go oracle only): cuts inside a quoted attribute value of an ordinary tag
+   and inside the whitespace at the end of a tag; an svg / math / xml element cut inside its own end tag; raw content that is empty (html_rawtext_end_exact
    says where raw content ends in general); text containing a '<' that opens nothing (other than at the end of input);
    names containing '/'; templates. *)
 Theorem html_wellformed_tokens_partial :
